@@ -13,7 +13,9 @@ EXPLANATION = (
     "uniqueness verdict: a key fed to set()/Counter must be an injective encoding of the identifying fields (tuples of fields are, "
     "hash(·) and concatenations / f-strings of >= 2 free strings are not), and objects placed in the set inside flatten() must "
     "have an __eq__ that compares the identifying fields (variable: id and bounds; compound: id, bounds, sign, value, children), "
-    "otherwise two different definitions are merged before any check sees them."
+    "otherwise two different definitions are merged before any check sees them - unless the definition checks range over every "
+    "occurrence (_occurrences(), nothing merged; proven by the contract of errors()) with keys that are injective AND cover the "
+    "identifying fields. A __hash__ only has to be a function of the object's fields (no identity)."
 )
 TRUSTED = ["lowering/canonicaliser (sa/terms.py)", "classification of key expressions (tuple of fields = injective; hash / string "
            "concatenation = not injective)"]
